@@ -307,10 +307,17 @@ TokenClauses(c) ==
 (* trivia of the previous one                                                 *)
 InsertNeighbourSel(c) ==
   IF HasElem(c) \/ Whole(c) \/ c.stmt \/ c.form # "slice" THEN {}
-  ELSE IF c.ns < NumE(c) THEN LeadSel(c, W(c), c.E[c.ns + 1].lo)
-  ELSE IF c.ns >= 1 THEN TrailSel(c, W(c), c.E[c.ns].hi, FALSE)
-  ELSE LET pk == {k \in Kids(c) : W(c).lo <= c.kids[k].lo /\ c.kids[k].hi <= W(c).hi} IN   \* empty field: children of
-       IF pk = {} THEN {} ELSE TrailSel(c, W(c), SetMax({c.kids[k].hi : k \in pk}), FALSE)   \* an interleaved field
+  ELSE LET w == W(c)
+           \* inserting at the head of the sequence: the put location starts right after the opening delimiter
+           pk == {k \in Kids(c) : w.lo <= c.kids[k].lo /\ c.kids[k].hi <= w.hi}       \* children of an interleaved field
+           first == IF c.ns < NumE(c) THEN c.E[c.ns + 1].lo ELSE IF pk = {} THEN w.hi + 1 ELSE SetMin({c.kids[k].lo : k \in pk})
+           opens == {i \in w.lo..(first - 1) : i \in c.own /\ Str(c.T[i]) \in {"(", "[", "{"}}
+           head == IF c.ns = 0 /\ opens # {} THEN TrailSel(c, w, SetMax(opens), FALSE) ELSE {}
+       IN head \cup
+          (IF c.ns < NumE(c) THEN LeadSel(c, w, c.E[c.ns + 1].lo)
+           ELSE IF c.ns >= 1 THEN TrailSel(c, w, c.E[c.ns].hi, FALSE)
+           ELSE IF pk = {} THEN {}
+           ELSE LeadSel(c, w, SetMin({c.kids[k].lo : k \in pk})) \cup TrailSel(c, w, SetMax({c.kids[k].hi : k \in pk}), FALSE))
 LostClass(c) ==
   IF ~FactsOk(c) \/ ~WOk(c) THEN ""
   ELSE LET lost == Lost(c, W(c)) IN
